@@ -119,6 +119,9 @@ func (sc *srvSc) build(r srvReq) *pb.Message {
 	case "badkey":
 		// a record that is valid for its own key, which differs from the message key
 		m.Record = &recpb.Record{Key: []byte("/v/zzz"), Value: simValue(r.Rank, "zzz", "srv")}
+	case "nokeyrec":
+		// a record that would be valid for the message key but names no key of its own
+		m.Record = &recpb.Record{Value: simValue(r.Rank, tag, "srv")}
 	case "invalid":
 		m.Record = &recpb.Record{Key: m.Key, Value: simValue(r.Rank, "othertag", "srv")}
 	case "emptyval":
@@ -786,7 +789,7 @@ func genSrvReq(t *rapid.T) srvReq {
 	switch pb.Message_MessageType(r.Type) {
 	case pb.Message_PUT_VALUE:
 		r.KeySel = rapid.SampledFrom([]int{6, 6, 6, 0, 2}).Draw(t, "putKeySel")
-		r.Rec = rapid.SampledFrom([]string{"ok", "ok", "ok", "badkey", "invalid", "emptyval", ""}).Draw(t, "rec")
+		r.Rec = rapid.SampledFrom([]string{"ok", "ok", "ok", "badkey", "invalid", "emptyval", "", "nokeyrec"}).Draw(t, "rec")
 		r.Rank = rapid.IntRange(0, 4).Draw(t, "rank")
 	case pb.Message_GET_VALUE:
 		r.KeySel = rapid.SampledFrom([]int{6, 6, 0, 2, 7}).Draw(t, "getKeySel")
